@@ -151,14 +151,14 @@ class Scoreboard:
 
         intervals: list[TimeInterval] = []
         duration = 0
-        start = 0
+        start = -1  # -1 = no run open (slot 0 is a valid run start)
 
         idx = startIdx
         while idx <= endIdx:
             # yield/predicate check
             val = self.sb[idx] if idx < len(self.sb) else None  # Boundary check
             if predicate(val) and idx < endIdx:
-                if start == 0:
+                if start < 0:
                     start = idx
                 duration += 1
             else:
@@ -172,7 +172,7 @@ class Scoreboard:
 
                         intervals.append(TimeInterval(self.idxToDate(start), self.idxToDate(current_idx)))
                     duration = 0
-                    start = 0
+                    start = -1
             idx += 1
 
         return intervals
